@@ -31,6 +31,13 @@ PROPS = {
         "note": "Trusted: Coq kernel, extraction, driver, harness, hooks. LFU's budget clause is conditional on the implementation's victim pick being accepted by the model (serr = 0), which the stream checks on every trace. 'At every moment Keys reports at most MaxSize keys' is proved between operations; during a concurrent write the conc stream samples it. F1 (two evictions for one insert) was found here and fixed.",
         "assumptions": ["per-shard, between operations; transient over-budget inside a write is inside the shard lock (MutexAtomicity.invariant_transfer)", "LFU: oracle pick accepted"],
     },
+    "C04": {
+        "file": "C04.v",
+        "streams": [S("qc", 150, 3000, timeout=2400), S("ql", 100, 2000), S("conc", 24, 400, timeout=2400, race=True), S("cache", 150, 2500, focus="C04")],
+        "claim": "Theorems over QueueLts, an atomic-step labelled transition system of one shard's write pipeline written statement by statement from mpsc.go / writes.go / cache.go (each step runs one thread from one yield point to the next): for every ring size n >= 2, batch size, number of producers / synchronous writers / Sync, Clear, Close callers / miss helpers, the worker, every schedule and every resolution of two-way selects: the ring invariant (no published command overwritten, laps and back-pressure included; n = 1 refuted), queue-applied commands are a prefix of the reservation order each applied exactly once, every nil-returned SetAsync is published / in the consumer's batch / applied, and (repaired code) real-time order: a write that returned before another was invoked is applied before it, for any mix of SetAsync, Set and Delete; the original syncMutate is refuted on the model (finding F13, replayed on the real code, fixed). Tied to /repo by T-lockstep at two levels: `ql` (the real mpscQueue) and `qc` (the real cache: SetAsync/Set/Sync/Close/Get-miss callers and the adopted write worker) run under the cooperative scheduler on random schedules, and after EVERY step the yield point or result and the shared state (head, tail, wakeState, wake/space tokens, closeCh, drain token) are compared with the extracted LTS; plus deterministic schedule probes (stalled producer, sync overtake, sync fence with a dequeued-but-unapplied batch), free-running stress with per-key linearizability windows, and the cache stream's queued batches (drain tokens held so that SetAsync goes through applyWriteBatch, Sync/Clear issued while the batch is queued).",
+        "note": "Trusted: Coq kernel, extraction, driver, harness, scheduler hooks (verifYield points; adoption of the worker goroutine). sync/atomic operations and channel sends/receives are single steps of the LTS; positions are unbounded integers (the 64-bit wrap of head/tail after 2^64 writes is not modelled). Pending second delivery of the proof file: sync_fence, no_lost_wake/progress ('visible within bounded time with no further calls') are currently covered by the lock-step streams and the deadlock monitor only: partial for those two clauses until QueueLtsProofs is extended.",
+        "assumptions": ["atomics and channel operations are sequentially consistent single steps", "Go's random choice in a two-way select with both cases ready is an oracle bit; theorems hold for both choices"],
+    },
     "C05": {
         "file": "C05.v",
         "streams": [S("cache", 250, 4000, focus="C05"), S("conc", 24, 400, timeout=2400)],
